@@ -19,6 +19,7 @@ import TlxVerif.Proofs.C01Iter
 import TlxVerif.Proofs.C01InsPos
 import TlxVerif.Proofs.C01StdOrder
 import TlxVerif.Proofs.C01Bulk
+import TlxVerif.Proofs.C01RIter
 namespace TlxVerif.C01
 
 variable {K V : Type}
@@ -170,12 +171,20 @@ theorem iteration_refines (p : Params K) (pv : p.Valid) (t : Tree K V) (ht : Tre
       deref t.leafChain (iterN (itDec t.leafChain) r e) = t.toList[t.toList.length - r]?) :=
   ⟨fun r hr => iteration_fwd_spec p pv t ht r hr, fun e he r h1 h2 => iteration_bwd_spec p pv t ht e he r h1 h2⟩
 
--- OPEN: reverse_iteration_refines — the same for `reverse_iterator::operator++/--` (`ritInc`/`ritDec`, whose
---   `curr_slot` is one past the referenced slot) and for the converting constructors `toReverse`/`toForward`;
---   modelled, compared with the implementation and with std::reverse_iterator / base() on every run.
-def reverse_iteration_refines_statement (p : Params K) : Prop :=
-  ∀ (t : Tree K V), TreeInv p t → ∀ e, endPos t.leafChain = some e → ∀ r, r < t.toList.length →
-    rderef t.leafChain (iterN (ritInc t.leafChain) r (toReverse t.leafChain e)) = t.toList[t.toList.length - 1 - r]?
+/-- reverse iteration: `r` applications of `reverse_iterator::operator++` to `rbegin()`
+(= `reverse_iterator(end())`, through the converting constructor) give a reverse iterator whose `*rit` is the
+`r`-th entry from the back -/
+theorem reverse_iteration_refines (p : Params K) (pv : p.Valid) (t : Tree K V) (ht : TreeInv p t) (e : Nat × Nat)
+    (he : endPos t.leafChain = some e) (r : Nat) (hr : r < t.toList.length) :
+    rderef t.leafChain (iterN (ritInc t.leafChain) r (toReverse t.leafChain e)) = t.toList[t.toList.length - 1 - r]? :=
+  iteration_rev_spec p pv t ht e he r hr
+
+-- OPEN: iterator_conversion_refines — the converting constructors at arbitrary positions (`toReverse`/`toForward`
+--   after the B1 repair: `*reverse_iterator(it) = *prev(it)`, `iterator(rit) = rit.base()`) and
+--   `reverse_iterator::operator--`; modelled, compared with the implementation and with std on every run.
+def iterator_conversion_refines_statement (p : Params K) : Prop :=
+  ∀ (t : Tree K V), TreeInv p t → ∀ r, 1 ≤ r → r ≤ t.toList.length →
+    rderef t.leafChain (toReverse t.leafChain (iterN (itInc t.leafChain) r (0, 0))) = t.toList[r - 1]?
 
 /-- `bulk_load` of an ordered range (level-by-level construction, `n / (parts − i)` distribution): defined,
 the container holds exactly the range, and the invariant holds -/
